@@ -2,13 +2,14 @@
 # usage: build.sh <scratch-dir> <out-binary> [race] [tags]
 # Regenerates the instrumented view of $REPO and builds the vsim harness.
 set -euo pipefail
-. /verif/bin/env.sh
+ROOT=$(dirname "$(dirname "$(readlink -f "$0")")")
+. "$ROOT/bin/env.sh"
 SCRATCH=$1; OUT=$2; RACE=${3:-norace}; TAGS=${4:-}
 mkdir -p "$SCRATCH"
-if [ ! -x /verif/bin/simgen ] || [ /verif/src/simgen/main.go -nt /verif/bin/simgen ]; then
-  (cd /verif/src/simgen && $GO build -o /verif/bin/simgen .)
+if [ ! -x "$ROOT/bin/simgen" ] || [ "$ROOT/src/simgen"/main.go -nt "$ROOT/bin/simgen" ]; then
+  (cd "$ROOT/src/simgen" && $GO build -o "$ROOT/bin/simgen" .)
 fi
-/verif/bin/simgen -repo "$REPO" -rt /verif/src/verifrt -out "$SCRATCH" -go "$GO" ${TAGS:+-tags "$TAGS"}
+"$ROOT/bin/simgen" -repo "$REPO" -rt "$ROOT/src/verifrt" -out "$SCRATCH" -go "$GO" ${TAGS:+-tags "$TAGS"}
 RFLAG=""; [ "$RACE" = race ] && RFLAG="-race"
 ALLTAGS="verif${TAGS:+,$TAGS}"
 (cd "$REPO" && $GO build $RFLAG -tags "$ALLTAGS" -modfile="$SCRATCH/alt.mod" -overlay="$SCRATCH/overlay.json" -o "$OUT" github.com/corazawaf/coraza/v3/verifrt/cmd/vsim)
